@@ -172,7 +172,11 @@ func TestVerifC19FS(t *testing.T) {
 		pre := 0
 
 		if c.Pre != "none" {
-			if _, err := config2.ParseRules("application/yaml", strings.NewReader(prevContent), false); err != nil {
+			var perr error
+
+			if site, _ := c19gen.Catch(func() {
+				_, perr = config2.ParseRules("application/yaml", strings.NewReader(prevContent), c.Env)
+			}); site != "" || perr != nil {
 				// "same" with an unloadable content: there is no such previous state
 				prevContent = c19RuleSets[0]
 			}
@@ -198,7 +202,13 @@ func TestVerifC19FS(t *testing.T) {
 		evName := name
 
 		classify := func(content string) string {
-			_, err := config2.ParseRules("application/yaml", strings.NewReader(content), c.Env)
+			var err error
+
+			if site, _ := c19gen.Catch(func() {
+				_, err = config2.ParseRules("application/yaml", strings.NewReader(content), c.Env)
+			}); site != "" {
+				return "RdBad" // the oracle call itself panicked: the real run below will show it
+			}
 
 			switch {
 			case errors.Is(err, config2.ErrEmptyRuleSet):
@@ -421,7 +431,10 @@ func TestVerifC19FSLoopChild(t *testing.T) {
 		failed := logs.Count("Failed to apply rule set changes")
 
 		if st.FeedErr {
-			p.w.Errors <- errC19Rejected
+			select {
+			case p.w.Errors <- errC19Rejected:
+			case <-time.After(2 * time.Second): // nobody reads the channel: the loop is gone; the step below will show it
+			}
 		}
 
 		if st.Remove {
@@ -439,7 +452,7 @@ func TestVerifC19FSLoopChild(t *testing.T) {
 
 		o := c19LoopObs{}
 
-		for deadline := time.Now().Add(30 * time.Second); time.Now().Before(deadline); time.Sleep(2 * time.Millisecond) {
+		for deadline := time.Now().Add(20 * time.Second); time.Now().Before(deadline); time.Sleep(2 * time.Millisecond) {
 			if proc.n() > 0 || logs.Count("Failed to apply rule set changes") > failed {
 				o.Delivered = true
 
@@ -460,6 +473,10 @@ func TestVerifC19FSLoopChild(t *testing.T) {
 
 		b, _ := json.Marshal(out)
 		fmt.Println("C19-FSLOOP-RESULT " + string(b))
+
+		if !o.Delivered {
+			return // the loop has stopped: nothing more to observe
+		}
 	}
 }
 
@@ -493,7 +510,10 @@ func c19FSLoop(t *testing.T, w *vf.Writer) {
 	}
 
 	raw, _ := json.Marshal(steps)
-	cmd := exec.Command(os.Args[0], "-test.run", "^TestVerifC19FSLoopChild$", "-test.v")
+	cctx, cancel := context.WithTimeout(context.Background(), 3*time.Minute)
+	defer cancel()
+
+	cmd := exec.CommandContext(cctx, os.Args[0], "-test.run", "^TestVerifC19FSLoopChild$", "-test.v")
 	cmd.Env = append(os.Environ(), "C19_FSLOOP_CASE="+string(raw), "VERIF_OUT=/dev/null", "C19_X=from-env")
 	outb, err := cmd.CombinedOutput()
 	text := string(outb)
@@ -526,7 +546,13 @@ func c19FSLoop(t *testing.T, w *vf.Writer) {
 
 		read := "RdOpenNotExist"
 		if !st.Remove {
-			_, perr := config2.ParseRules("application/yaml", strings.NewReader(st.Content), true)
+			var perr error
+
+			if site, _ := c19gen.Catch(func() {
+				_, perr = config2.ParseRules("application/yaml", strings.NewReader(st.Content), true)
+			}); site != "" {
+				perr = errC19Rejected
+			}
 
 			switch {
 			case errors.Is(perr, config2.ErrEmptyRuleSet):
@@ -553,7 +579,7 @@ func c19FSLoop(t *testing.T, w *vf.Writer) {
 				vf.CoqList(res[k].Calls), vf.CoqBool(res[k].Failed)))
 		case k < len(res):
 			out = "watcher-stopped"
-			o = map[string]any{"msg": "the watch loop showed no effect of the event within 30 s (stopped?)", "obs": res[k]}
+			o = map[string]any{"msg": "the watch loop showed no effect of the event within 20 s (stopped?)", "obs": res[k]}
 			obsCoq = "(FsExit SOther)"
 		default:
 			site := "SOther"
